@@ -50,7 +50,7 @@ def tree_hash(root=None):
         for d, _, fs in os.walk(base):
             for f in fs:
                 paths.append(os.path.join(d, f))
-    paths.append(os.path.join(VERIF, 'tool', 'yaclint.cc'))
+    paths.append(TOOL)  # the extractor binary that actually produces the facts (not its source)
     for p in sorted(paths):
         h.update(p.encode())
         h.update(b'\0')
